@@ -101,6 +101,19 @@ structure Schema where
   dres : Option Nat
   deriving DecidableEq, Repr, Inhabited
 
+/-- the type references a type object holds itself: `ObjectType.interfaces`, `UnionType.types` (other kinds have none) -/
+def typeRefs (t : TypeO) : List Ref :=
+  match t.kind with
+  | .object => t.ifaces
+  | .union => t.members
+  | _ => []
+
+/-- the members a type object has: fields of object / interface / input object types (other kinds have none) -/
+def typeKids (t : TypeO) : List Addr :=
+  match t.kind with
+  | .object | .interface | .input => t.fields
+  | _ => []
+
 /-- the member objects an object OWNS (`fields` / `arguments` lists) -/
 def kids : Obj → List Addr
   | .type t => t.fields
@@ -248,10 +261,14 @@ def onField (v : Visitor) (reg : List (String × Addr)) (tn : String) (h : Heap)
 def fieldName (h : Heap) (a : Addr) : Option String := (h.readField a).map (·.name)
 def argName (h : Heap) (a : Addr) : Option String := (h.readArg a).map (·.name)
 
+/-- `if updated_fields != type.fields: return Type(name, updated_fields, …)  else: return type` -/
+def rebuiltOrSame (h : Heap) (a : Addr) (t : TypeO) (fs : List Addr) : Heap × Addr :=
+  if fs != t.fields then h.alloc (.type { t with fields := fs }) else (h, a)
+
 /-- base part of `on_object` / `on_interface` (+ the heal visitor's `updated.interfaces = …`) -/
 def compositeRest (v : Visitor) (reg : List (String × Addr)) (a : Addr) (h : Heap) (t : TypeO) : Heap × Option Addr :=
   let r := mapFilter (onField v reg t.name) h t.fields
-  let upd := if r.2 != t.fields then r.1.alloc (.type { t with fields := r.2 }) else (r.1, a)
+  let upd := rebuiltOrSame r.1 a t r.2
   match v with
   | .heal =>
     if t.kind == Kind.object then
@@ -289,7 +306,7 @@ def onLeaf (v : Visitor) (h : Heap) (a : Addr) (t : TypeO) : Heap × Option Addr
 /-- base part of `on_input_object`; `nm` is the name of the type the visibility hook is asked about -/
 def inputRest (v : Visitor) (reg : List (String × Addr)) (a : Addr) (nm : String) (h : Heap) (t : TypeO) : Heap × Option Addr :=
   let r := mapFilter (onInputField v reg) h t.fields
-  let upd := if r.2 != t.fields then r.1.alloc (.type { t with fields := r.2 }) else (r.1, a)
+  let upd := rebuiltOrSame r.1 a t r.2
   match v with
   | .vis p => if p.isTypeVisible nm then (upd.1, some upd.2) else (upd.1, none)
   | _ => (upd.1, some upd.2)
@@ -412,7 +429,7 @@ def onSchema (cfg : Cfg) (fuel : Nat) (v : Visitor) (s : Schema) (h : Heap) : Op
 /-- addresses referenced by the object at `a` the way `_build_type_map` walks them -/
 def children (h : Heap) (a : Addr) : List Addr :=
   match h.read a with
-  | some (.type t) => t.members.map (·.addr) ++ t.ifaces.map (·.addr) ++ t.fields
+  | some (.type t) => (typeRefs t).map (·.addr) ++ typeKids t
   | some (.field f) => f.ty.base.addr :: f.args
   | some (.arg g) => [g.ty.base.addr]
   | some (.dir d) => d.args
@@ -548,11 +565,16 @@ def fieldShape (chk : Ref → Bool) (h : Heap) (a : Addr) : Bool :=
   | some f => chk f.ty.base && f.args.all (argShape chk h)
   | none => false
 
+/-- the members of a type object, by kind, have the member shape -/
+def typeMembersOK (chk : Ref → Bool) (h : Heap) (t : TypeO) : Bool :=
+  match t.kind with
+  | .input => t.fields.all (argShape chk h)
+  | .object | .interface => t.fields.all (fieldShape chk h)
+  | _ => true
+
 def typeShape (chk : Ref → Bool) (h : Heap) (a : Addr) : Bool :=
   match h.readType a with
-  | some t =>
-    t.ifaces.all chk && t.members.all chk &&
-      (if t.kind == Kind.input then t.fields.all (argShape chk h) else t.fields.all (fieldShape chk h))
+  | some t => (typeRefs t).all chk && typeMembersOK chk h t
   | none => false
 
 def dirShape (chk : Ref → Bool) (h : Heap) (a : Addr) : Bool :=
@@ -579,9 +601,17 @@ def nameOK (h : Heap) (e : String × Addr) : Bool :=
   | some t => t.name == e.1
   | none => false
 
+/-- a protected (specified scalar) entry holds a scalar object -/
+def protLeaf (h : Heap) (e : String × Addr) : Bool :=
+  !isProtected e.1 || (match h.readType e.2 with | some t => t.kind == Kind.scalar | none => false)
+
+/-- registry names are distinct (a Python dict) -/
+def namesNodup (reg : List (String × Addr)) : Bool := decide ((reg.map (·.1)).Nodup)
+
 /-- well-formed: every registered address holds a type / directive object whose member lists hold
     field / argument objects (no statement about where references point) -/
-def wfB (h : Heap) (s : Schema) : Bool := shapeB (fun _ => true) h s
+def wfB (h : Heap) (s : Schema) : Bool :=
+  shapeB (fun _ => true) h s && s.types.all (nameOK h) && s.types.all (protLeaf h) && namesNodup s.types
 
 /-- every reference reachable through fields, arguments, input fields, interfaces, union members,
     directive arguments and root operations is THE object registered under its name -/
